@@ -177,7 +177,8 @@ def run(ctx: Ctx):
     rets = [st for st, _ in ReachingDefs(ln.node).return_envs]
     if len(rets) != 1:
         raise AnalysisError("C13: __len__ has several returns")
-    cd = ceil_div(rets[0].value)
+    from sa.inline import Inliner as _InlL
+    cd = ceil_div(_InlL(ln.node).expand(rets[0].value))
     n = Normalizer()
     want = padd(n.poly(triple[1]), n.poly(triple[0]), -1)
     okl = cd is not None and not padd(cd[0], want, -1) and not padd(cd[1], n.poly(triple[2]), -1)
@@ -191,64 +192,81 @@ def run(ctx: Ctx):
     where = f"{rel}::{init.qualname}"
     members, cmpd = R_enum.g8_dispatch(pkg, res, col, init, "on_uneven_distributed", "S4", allow_else=0)
     R_enum.g8_validation(pkg, res, col, init, "on_uneven_distributed", "S4", members)
-    drop_ok = raise_ok = False
-    rank_ok = world_ok = False
+    # __init__ specialised on each mode (tests on the mode folded, also through temporaries); what remains is inspected on
+    # expansions, so neither the spelling of the 'in a process group' test nor a named remainder matters
     from sa.astutil import guards_of, parent_map
-    pm = parent_map(init.node)
-    for nnode in own_nodes(init.node):
-        if isinstance(nnode, ast.Assign) and len(nnode.targets) == 1:
-            t = u(nnode.targets[0])
-            gs = [(u(tt), pol) for tt, pol in guards_of(pm, nnode)]
-            if t == "self.effective_total" and any("'drop'" in g and pol for g, pol in gs):
-                w = n.poly(ast.parse("self.total - self.total % self._world_size", mode="eval").body)
-                drop_ok = not padd(n.poly(nnode.value), w, -1)
-            if t == "self._rank" and call_name(nnode.value) if isinstance(nnode.value, ast.Call) else False:
-                rank_ok = call_name(nnode.value) == "torch.distributed.get_rank"
-            if t == "self._world_size" and isinstance(nnode.value, ast.Call):
-                world_ok = call_name(nnode.value) == "torch.distributed.get_world_size"
-        if isinstance(nnode, ast.Raise):
-            gs = [(u(tt), pol) for tt, pol in guards_of(pm, nnode)]
-            if any("'raise'" in g and pol for g, pol in gs) and any("%" in g and pol for g, pol in gs):
-                raise_ok = True
+    from sa.inline import Inliner
+    from sa.specialise import specialise
+
+    def _mode_view(mode):
+        node, _ = specialise(init.node, {"on_uneven_distributed": mode}, allow_reassigned=("on_uneven_distributed",), inline_tests=True)  # (re-assigned only by its argcheck validator, which returns it)
+        return node, parent_map(node), Inliner(node)
+
+    def _targets(st):
+        out = []
+        for t in st.targets:
+            out.extend(t.elts if isinstance(t, ast.Tuple) else [t])
+        return [u(t) for t in out]
+
+    def _mentions_remainder(t, inl):
+        return "%" in inl.text(t)
+    # drop: effective_total = total - total % world, under a test of the remainder
+    node_d, pm_d, inl_d = _mode_view("drop")
+    drop_ok = False
+    for st in ast.walk(node_d):
+        if isinstance(st, ast.Assign) and "self.effective_total" in _targets(st) and any(_mentions_remainder(t, inl_d) for t, _ in guards_of(pm_d, st)):
+            w = n.poly(ast.parse("self.total - self.total % self._world_size", mode="eval").body)
+            drop_ok = not padd(n.poly(inl_d.expand(st.value)), w, -1)
     col.ob("G12", "S3", f"{where}::drop-branch", drop_ok,
            "under 'drop' effective_total is not total - total % world_size (ranks would get unequal counts)",
            rel, init.line)
+    # raise: a raise reached exactly when the remainder is non-zero
+    node_r, pm_r, inl_r = _mode_view("raise")
+    raise_ok = any(isinstance(st, ast.Raise) and any(pol and _mentions_remainder(t, inl_r) for t, pol in guards_of(pm_r, st))
+                   for st in ast.walk(node_r))
     col.ob("G8", "S4", f"{where}::raise-branch", raise_ok,
            "under 'raise' an indivisible size does not raise", rel, init.line)
+    # uneven: nothing is dropped and nothing raises on the remainder
+    node_u, pm_u, inl_u = _mode_view("uneven")
+    uneven_ok = not any(isinstance(st, ast.Assign) and "self.effective_total" in _targets(st) and guards_of(pm_u, st) for st in ast.walk(node_u)) \
+        and not any(isinstance(st, ast.Raise) and any(_mentions_remainder(t, inl_u) for t, _ in guards_of(pm_u, st)) for st in ast.walk(node_u))
+    col.ob("G8", "S4", f"{where}::uneven-keeps-every-index", uneven_ok,
+           "under 'uneven' the size is reduced or refused: every index must be yielded by exactly one rank", rel, init.line)
+    # rank / world size from the process group in the distributed modes
+    rank_ok = world_ok = False
+    for st in ast.walk(node_d):
+        if isinstance(st, ast.Assign) and isinstance(st.value, ast.Call):
+            if "self._rank" in _targets(st):
+                rank_ok = call_name(st.value) == "torch.distributed.get_rank"
+            if "self._world_size" in _targets(st):
+                world_ok = call_name(st.value) == "torch.distributed.get_world_size"
     col.ob("G12", "S3", f"{where}::rank-and-world", rank_ok and world_ok,
            "self._rank / self._world_size are not taken from torch.distributed.get_rank/get_world_size", rel,
            init.line)
-    # 'ignore' gives every rank the whole epoch: the distributed branch is guarded by != 'ignore' and the
-    # fallback sets (_rank, _world_size) = (0, 1)
+    # 'ignore' gives every rank the whole epoch: specialised on 'ignore', rank and world size are only ever the constants
+    # (0, 1) and the process group is never consulted for them
+    node_i, pm_i, inl_i = _mode_view("ignore")
     fb = {}
-    for nnode in own_nodes(init.node):
-        if isinstance(nnode, ast.Assign) and len(nnode.targets) == 1 and u(nnode.targets[0]) in (
-                "self._rank", "self._world_size") and isinstance(nnode.value, ast.Constant):
-            fb[u(nnode.targets[0])] = nnode.value.value
-    # under 'ignore' the process group must never determine rank / world size: every non-constant assignment of
-    # them is dominated by `on_uneven_distributed != 'ignore'`
-    def _conj(t, text):
-        if u(t) == text:
-            return True
-        return isinstance(t, ast.BoolOp) and isinstance(t.op, ast.And) and any(_conj(v, text) for v in t.values)
     ndist = 0
-    for nnode in own_nodes(init.node):
-        if isinstance(nnode, ast.Assign):
-            tg = []
-            for t in nnode.targets:
-                tg.extend(t.elts if isinstance(t, ast.Tuple) else [t])
-            if any(u(t) in ("self._rank", "self._world_size") for t in tg) and not (
-                    isinstance(nnode.value, ast.Constant) or (isinstance(nnode.value, ast.Tuple) and all(
-                        isinstance(x, ast.Constant) for x in nnode.value.elts))):
-                ndist += 1
-                gs = guards_of(pm, nnode)
-                okg = any((pol and _conj(t, "on_uneven_distributed != 'ignore'"))
-                          or ((not pol) and _conj(t, "on_uneven_distributed == 'ignore'")) for t, pol in gs)
-                col.ob("G8", "S4", f"{where}::ignore-excludes-process-group({u(tg[0])})", okg,
-                       f"`{u(nnode)}` takes the rank/world size from the process group on a branch that is not "
-                       f"excluded for on_uneven_distributed == 'ignore': under 'ignore' a rank would get a shard "
-                       f"instead of the full epoch", rel, nnode.lineno, sample=u(nnode))
-    col.floor("process_group_assignments", ndist, 2)
+    for st in ast.walk(node_i):
+        if isinstance(st, ast.Assign) and set(_targets(st)) & {"self._rank", "self._world_size"}:
+            vals = st.value.elts if isinstance(st.value, ast.Tuple) else [st.value] * len(_targets(st))
+            for tname, v in zip(_targets(st), vals):
+                if tname in ("self._rank", "self._world_size"):
+                    if isinstance(v, ast.Constant):
+                        fb[tname] = v.value
+                    else:
+                        ndist += 1
+                        col.ob("G8", "S4", f"{where}::ignore-excludes-process-group({tname})", False,
+                               f"`{u(st)}` takes the rank/world size from the process group on a branch that is not "
+                               f"excluded for on_uneven_distributed == 'ignore': under 'ignore' a rank would get a shard "
+                               f"instead of the full epoch", rel, st.lineno, sample=u(st))
+    # (positive control: in the distributed modes those assignments are present)
+    npg = sum(1 for st in ast.walk(node_d) if isinstance(st, ast.Assign) and set(_targets(st)) & {"self._rank", "self._world_size"}
+              and not isinstance(st.value, ast.Constant))
+    col.floor("process_group_assignments", npg, 2)
+    col.ob("G8", "S4", f"{where}::ignore-excludes-process-group", ndist == 0,
+           "under 'ignore' the process group determines rank / world size", rel, init.line, nontrivial=False)
     col.ob("G8", "S4", f"{where}::ignore-fallback", fb == {"self._rank": 0, "self._world_size": 1},
            f"the non-distributed / 'ignore' fallback sets {fb}, expected rank 0 of world 1", rel, init.line,
            sample=fb)
